@@ -44,6 +44,8 @@ impl TinyLFU {
     /// That means, if the same key is accessed twice, it will be added to the doorkeeper on the first access.
     pub(crate) fn estimate(&self, key_hash: KeyHash) -> FrequencyEstimate {
         let mut estimate = self.key_access_frequency.estimate(key_hash);
+        #[cfg(feature = "cached_verif")]
+        crate::cache::verif::tap(|| format!("dk.has {} {}", key_hash, self.door_keeper.has(&key_hash)));
         if self.door_keeper.has(&key_hash) {
             estimate += 1;
         }
@@ -62,6 +64,8 @@ impl TinyLFU {
     /// subsequent accesses will find the key in the doorkeeper and hence increment the access in the `FrequencyCounter`.
     fn increment_access_for(&mut self, key_hash: KeyHash) {
         let added = self.door_keeper.add_if_missing(&key_hash);
+        #[cfg(feature = "cached_verif")]
+        crate::cache::verif::tap(|| format!("dk.add {} {}", key_hash, added));
         if !added {
             self.key_access_frequency.increment(key_hash);
         }
@@ -77,6 +81,37 @@ impl TinyLFU {
         self.key_access_frequency.reset();
         self.door_keeper.clear();
     }
+}
+
+#[cfg(feature = "cached_verif")]
+/// Observable state of the sketch: seeds, total counters, rows, increments so far, reset threshold.
+pub struct VerifSketch {
+    pub seeds: [u64; 4],
+    pub total_counters: u64,
+    pub rows: Vec<Vec<u8>>,
+    pub total_increments: u64,
+    pub reset_counters_at: u64,
+}
+
+#[cfg(feature = "cached_verif")]
+impl TinyLFU {
+    pub(crate) fn verif_sketch(&self) -> VerifSketch {
+        let (seeds, total_counters, rows) = self.key_access_frequency.verif_state();
+        VerifSketch { seeds, total_counters, rows, total_increments: self.total_increments, reset_counters_at: self.reset_counters_at }
+    }
+}
+
+#[cfg(feature = "cached_verif")]
+/// A bare `TinyLFU`, for differential checks of the sketch alone.
+pub struct VerifTinyLFU(TinyLFU);
+
+#[cfg(feature = "cached_verif")]
+impl VerifTinyLFU {
+    pub fn new(counters: TotalCounters) -> Self { VerifTinyLFU(TinyLFU::new(counters)) }
+    pub fn increment_access(&mut self, key_hashes: Vec<KeyHash>) { self.0.increment_access(key_hashes) }
+    pub fn estimate(&self, key_hash: KeyHash) -> FrequencyEstimate { self.0.estimate(key_hash) }
+    pub fn clear(&mut self) { self.0.clear() }
+    pub fn sketch(&self) -> VerifSketch { self.0.verif_sketch() }
 }
 
 #[cfg(test)]
